@@ -122,7 +122,7 @@ MUTATIONS = [
      ["C18"], "leaf marker swapped"),
     ("M53", "stackscope/_types.py", "        if self.hide and not opts.show_hidden_frames:\n            return []\n\n        start_child", "        if False:\n            return []\n\n        start_child",
      ["C18"], "hidden contexts printed"),
-    ("M54", "stackscope/_types.py", "                    marker = start_child if idx == 0 else continue_child\n", "                    marker = start_child if idx <= 1 else continue_child\n",
+    ("M54", "stackscope/_types.py", "                marker = start_child if idx == 0 else continue_child\n", "                marker = start_child if idx <= 1 else continue_child\n",
      ["C18"], "child prefix on the wrong line"),
     ("M55", "stackscope/_types.py", "        if not (self.contexts and self.contexts[-1].is_exiting):\n            yield self.as_stdlib_summary(capture_locals=capture_locals)", "        if True:\n            yield self.as_stdlib_summary(capture_locals=capture_locals)",
      ["C19"], "frame entry not omitted when the last context is exiting"),
